@@ -19,6 +19,13 @@ def make_user_class(name, style):
         for k, v in kwargs.items():
             setattr(self, k, v)
     d = {"__init__": __init__}
+    if style == "init_parent":
+        # the documented shape: the constructor takes `parent` and stores it itself
+        def __init__(self, parent=None, **kwargs):  # noqa: F811
+            self.parent = parent
+            for k, v in kwargs.items():
+                setattr(self, k, v)
+        d = {"__init__": __init__}
     if style == "eq_all":
         # a user class whose __eq__ makes all instances equal (get_children must use identity)
         d["__eq__"] = lambda self, other: isinstance(other, type(self))
